@@ -25,7 +25,7 @@ var c17Tree = reg("C17", "c17-tree", checkC17)
 var htmlTags = []string{"p", "div", "span", "a", "b", "i", "ul", "li", "table", "tr", "td", "th", "caption", "select", "option",
 	"template", "script", "style", "textarea", "title", "br", "img", "input", "hr", "svg", "math", "foreignObject", "desc", "html", "head", "body",
 	"form", "h1", "nobr", "tbody", "x:y", "svg:rect", "frameset", "noscript", "button", "dd", "mi", "annotation-xml"}
-var htmlAttrs = []string{"id", "class", "xmlns", "xmlns:x", "x:y", "xlink:href", "xml:lang", "xmlns:xlink", "href", "id", "a:b", "definitionurl", "encoding"}
+var htmlAttrs = []string{"id", "class", "xmlns", "xmlns:x", "x:y", "xlink:href", "xml:lang", "xmlns:xlink", "href", "id", "a:b", "definitionurl", "encoding", "xmlnsfoo", "xmlns-x", "xmlns_id", "xml", "xmlnsx:y"}
 var htmlTexts = []string{"text", " ", "x < y", "&amp;", "&lt;b&gt;", "é", "\n", "a b", "]]>", "&#x41;"}
 
 func genSoup(t *rapid.T) string {
